@@ -375,6 +375,82 @@ def run(ctx):
                        site="%s@split-batch" % fn.name)
     ctx.floor("C01.R7", n7, 6, "split batches in try_push_n / try_pop_n instances")
 
+    # ---------------------------------------------------------------- R8 the two pieces of a wrapping batch partition it
+    # (linear identities over the call arguments: piece 2 starts where piece 1 ends, the counts add up to the count of the
+    # unsplit call, both start at the same ticket; the boundary is the next multiple of the capacity)
+    n8 = 0
+    for fn in fb.find(pred=lambda f: is_queue_fn(f) and f.has_cfg() and not f.lambda_):
+        ig = IG(fn, inline=lambda a, b, c: False)
+        live = ig.live_nodes()
+        steps = [n for n in ig.ev_nodes() if n.id in live and n.ev["e"] == "call" and len(n.ev.get("args", [])) >= 3 and
+                 re.search(r"ConcurrentBoundedQueue<.*>::(try_)?deal_n_continuously$", n.ev.get("callee", "") or "")]
+        if len(steps) != 3:
+            continue
+        seq = [(a, b) for a in steps for b in steps if a is not b and ig.path_exists(a, b)]
+        if len(seq) != 1:
+            continue
+        p1, p2 = seq[0]
+        whole = [x for x in steps if x is not p1 and x is not p2][0]
+        n8 += 1
+        st = lambda n: L.linear(ig, n.ev["args"][-2], n.frame)
+        ct = lambda n: L.linear(ig, n.ev["args"][-1], n.frame)
+        ok = L.lin_eq(st(p1), st(whole)) and L.lin_eq(st(p2), L.lin_add(st(p1), ct(p1))) and \
+            L.lin_eq(L.lin_add(ct(p1), ct(p2)), ct(whole))
+        # the boundary: (index + mask + 1) & ~mask
+        bd = strip_cast(ig.resolve(p2.ev["args"][-2], p2.frame))
+        shape = False
+        for o in ig.origins(bd):
+            o = strip_cast(o)
+            if isinstance(o, dict) and o.get("k") == "b" and o.get("op") == "&":
+                l_, r_ = strip_cast(o.get("l")), strip_cast(o.get("r"))
+                la = L.linear(ig, l_, None)
+                neg = isinstance(r_, dict) and r_.get("k") == "u" and r_.get("op") == "~" and strip_cast(r_.get("x")).get("n") == "_slot_mask"
+                shape = neg and la[1] == 1 and sorted(la[0].values()) == [1, 1] and any("_slot_mask" in k_ for k_ in la[0]) and \
+                    L.lin_eq(L.lin_add((dict((k_, v_) for k_, v_ in la[0].items() if "_slot_mask" not in k_), 0), st(p1), -1), ({}, 0))
+        ctx.ob("C01.R8", "%s@%s" % (L.short(fn)[:100], p2.line), ok and shape, p2.where,
+               "a batch that wraps the ring end must be split exactly: piece 1 = [ticket, boundary), piece 2 = [boundary, ticket + n) "
+               "with boundary = (ticket + mask + 1) & ~mask; got starts %s / %s, counts %s + %s vs %s" % (
+                   st(p1), st(p2), ct(p1), ct(p2), ct(whole)), site="%s@split-arithmetic" % fn.name)
+    ctx.floor("C01.R8", n8, 20, "wrapping batch splits")
+
+    # ---------------------------------------------------------------- R9 ticket -> slot and ticket -> version mappings
+    n9 = 0
+    for fn in fb.find(pred=lambda f: is_queue_fn(f) and f.has_cfg() and not f.lambda_):
+        ig = IG(fn, inline=lambda a, b, c: False)
+        live = ig.live_nodes()
+        inst = L.short(fn)[:110]
+        acc = [n for n in ig.ev_nodes() if n.id in live and n.ev["e"] == "call" and n.ev.get("args") and
+               re.search(r"ConcurrentBoundedQueue<.*>::SlotVector::(value|futex|value_iterator|futex_iterator)$", n.ev.get("callee", "") or "")]
+        for a in acc:
+            if fn.name in ("reserve_and_clear", "clear"):
+                continue        # single-threaded maintenance: walks every slot by plain position, no ticket involved
+            n9 += 1
+            masked = False
+            for o in ig.origins(ig.rarg(a, 0)):
+                o = strip_cast(o)
+                if isinstance(o, dict) and o.get("k") == "b" and o.get("op") == "&" and \
+                        any(isinstance(strip_cast(x), dict) and strip_cast(x).get("n") == "_slot_mask" for x in (o.get("l"), o.get("r"))):
+                    masked = True
+                elif isinstance(o, dict) and o.get("k") == "b" and o.get("op") == "+":
+                    # slot_index + i inside a contiguous piece (the piece never crosses the ring end: R8)
+                    masked = any(isinstance(strip_cast(y), dict) and strip_cast(y).get("k") == "b" and strip_cast(y).get("op") == "&"
+                                 for x in (o.get("l"), o.get("r")) for y in ig.origins(x))
+            ctx.ob("C01.R9a", "%s@%s" % (inst, a.line), masked, a.where,
+                   "a slot must be addressed by <ticket> & _slot_mask: any other mapping sends two live tickets to one slot or "
+                   "leaves slots unused", site="%s@slot-index" % fn.name)
+        pp = L.tparam(fn, "PUSH_OR_POP")
+        if pp in ("true", "false"):
+            names = [n.ev.get("name") for n in ig.ev_nodes() if n.id in live and n.ev["e"] == "call" and
+                     n.ev.get("name") in ("push_version_for_index", "pop_version_for_index")]
+            if names:
+                n9 += 1
+                want = "push_version_for_index" if pp == "true" else "pop_version_for_index"
+                ctx.ob("C01.R9b", inst, set(names) == set([want]), fn.loc,
+                       "a %s must wait for the %s version of its ticket (got %s): with the other mapping it takes the slot in the "
+                       "wrong phase of the round" % ("push" if pp == "true" else "pop", "push" if pp == "true" else "pop", sorted(set(names))),
+                       site="%s@version-mapping" % fn.name)
+    ctx.floor("C01.R9", n9, 100, "slot accesses and version mappings")
+
 
 SWEEP = ["concurrent/test_bounded_queue.cpp", "concurrent/test_bounded_queue_press_mpmc.cpp", "concurrent/test_execution_queue.cpp",
          "test_executor.cpp", "logging/test_async_file_appender.cpp"]
